@@ -458,7 +458,9 @@ Definition open (d : disk) : ores :=
     let lastmm := last_mmref cs in
     let clost := negb (Nat.eqb (length cs) (length (flat_map cf_chunks (d_chunks d)))) in
     let mv := d_minvalid d in
-    let h0 := mkH [] 0 false in
+    (* loadMmappedChunks raises lastSeriesID to the highest series ref of the chunks that iterate
+       (so that a ref that survives only in a head chunk file is not handed out again) *)
+    let h0 := mkH [] (fold_left (fun a c => Z.max a (c_ref c)) cs 0) false in
     let mk w b := mkD (d_blocks d) mv (d_ckpt d) w b files (d_cap d) in
     match read_log (ckpt_recs d) with
     | (_, LOracle) => OOracle
